@@ -32,7 +32,8 @@ REQUIRED_COUNTERS = ['surplus_transfer', 'exhausted_pile_gt_candidate', 'shared_
                      # checklist items 10-12
                      'three_elected_one_count', 'two_on_quota_exactly', 'two_on_quota_exactly_not_accepted', 'hare_3way_remainder2',
                      'step2_tie_inside_eliminated', 'step2_tie_at_boundary', 'two_over_awarded', 'quota_below_one',
-                     'fewer_votes_than_seats', 'n_seats_zero', 'cross_selector_options', 'cross_distributor_options']
+                     'fewer_votes_than_seats', 'n_seats_zero', 'cross_selector_options', 'cross_distributor_options',
+                     'deep_only_candidate_last_ballot_short']
 RULE = ('(audited against harness/GENERATOR_CHECKLIST.md) ranked profiles over 1-6 candidates, 1-10 ballot types (truncated, shared ranks, empty ballots, zero-first-preference '
         'candidates), weights from a tie-forcing small set / Fractions / integers up to 10^20, n_seats 1..#candidates, Gregory and '
         'Hare(seed) transfer, quota droop / hare / hagenbach_bischoff / None, accept_quota_equal, mandatory_quota, eliminate_step '
@@ -248,6 +249,8 @@ def _retag_trace(case, obs):
         _tag(case, 'step_positive')
     if case.get('warmup'):
         _tag(case, 'warmup_' + case.get('_warm_kind', 'x'))
+    if deep_only_after_last(case['votes']):
+        _tag(case, 'deep_only_candidate_last_ballot_short')
     if _grows_existing_exhausted(obs['_detail']):
         _tag(case, 'reexhaust_trace')
     if case['n'] == 0:
@@ -323,9 +326,16 @@ def _held(alloc):
     return sum(_totals(alloc).values(), Fraction(0))
 
 
-def _check_state(alloc, out, where):
-    """non-negativity and 'rests with the highest-ranked continuing candidate' on one state"""
-    cont = [h for h, _ in alloc if h is not None]
+def _check_state(alloc, out, where, cont=None):
+    """non-negativity and 'rests with the highest-ranked continuing candidate' on one state.  `cont`: the continuing candidates
+    worked out from the ballots (everybody named anywhere, less those declared elected to their maximum or excluded so far); for a
+    synthetic single state (stv_next) they are the candidates of the allocation."""
+    keys = [h for h, _ in alloc if h is not None]
+    if cont is None:
+        cont = keys
+    elif sorted(keys) != sorted(cont):
+        out.append(('continuing_candidate_without_pile',
+                    f'{where}: continuing by the ballots {sorted(cont)}, piles exist for {sorted(keys)}'))
     for h, pile in alloc:
         for b, w in pile:
             w = Fraction(w)
@@ -471,7 +481,9 @@ def _oracle_trace(case, obs):
     empty = sum((w for b, w in votes if not b), Fraction(0))
     if _held(init) + empty != V:
         out.append(('conservation', f'initial allocation holds {_held(init)} + {empty} empty of {V} cast'))
-    _check_state(init, out, 'initial allocation')
+    # who continues is read off the ballots, not off the implementation's allocation: everybody named on any ballot ...
+    ref_cont = list(profile_cands(case['votes']))
+    _check_state(init, out, 'initial allocation', cont=ref_cont)
     # shared first rank: divided among its candidates, equally under fractional transfer
     piles = {h: {json.dumps(b): Fraction(w) for b, w in pile} for h, pile in init}
     for b, w in votes:
@@ -502,7 +514,9 @@ def _oracle_trace(case, obs):
             break
         by_quota += sum(k for _, k in rec['elected'])
         state = rec['alloc']
-        _check_state(state, out, f'after {where}')
+        # ... less those the count declared excluded or elected to their maximum
+        ref_cont = [c for c in ref_cont if c not in rec['eliminated']]
+        _check_state(state, out, f'after {where}', cont=ref_cont)
         q = Fraction(rec['quota']) if rec['quota'] is not None else None
         spent = q * by_quota if (by_quota and q is not None) else 0
         if _held(state) + empty + spent != V:
@@ -898,6 +912,11 @@ def _audit_directed(rng):
             c.update({'op': 'stv_nth', 'k': k})
             yield c
     yield _state_case(rng, ['directed'], big_exhausted=True, method='gregory', quota='droop', mandatory=False, step=-1)
+    # a candidate named only at ranks deeper than the ballot listed last reaches (all_rankings must scan every rank)
+    for method, seed in (('gregory', 0), ('hare', 1), ('hare', rng.randint(2, 9))):
+        yield _trace_case(rng, ['directed'], votes=deep_only_profile(rng), n=3, **dict(base, method=method, seed=seed))
+    dv = deep_only_profile(rng)
+    yield _trace_case(rng, ['directed'], votes=dv, n=2, form='distributor', max=[[c, 2] for c in profile_cands(dv)], prev=[], **base)
     # 10. multiplicity of the rare events; 11. every argument crossed with every option
     for votes, n, opts, tags in multiplicity_cases(rng):
         kw = dict(base)
